@@ -113,7 +113,37 @@ def ed_parser_rule(rep, key, leaf):
     rep.ob("C11.pairs", key + "|ed25519-parser", ps == ["from_pkcs8_maybe_unchecked"], "Ed25519 keys are parsed with from_pkcs8_maybe_unchecked (PKCS#8 v1 and v2) by every loader of both back ends", expected=["from_pkcs8_maybe_unchecked"], found=ps)
 
 
+def rsa_container_rule(cfg, crate, rep):
+    """aws-lc-rs has two RSA parsers: `RsaKeyPair::from_pkcs8` (PKCS#8 only) and `RsaKeyPair::from_der` (PKCS#1 only).
+    The loaders that accept either container (`from_der_and_sign_algo`, the auto-detecting `TryFrom<&PrivateKeyDer>`) load
+    every RSA key rcgen or ring exported only if they pick the parser by the container kind: `from_pkcs8` exactly on the
+    paths where the input is `PrivateKeyDer::Pkcs8`, `from_der` exactly on the others."""
+    fns = [EXPLICIT_DER] + [k for k in crate.bodies if k.startswith("<key_pair::KeyPair as std::convert::TryFrom<&") and "PrivateKeyDer" in k and k.endswith("::try_from")]
+    for fn in fns:
+        if fn not in crate.bodies:
+            continue
+        I = Interp(crate)
+        I.run_fn(fn)
+        seen = {"from_pkcs8": [], "from_der": []}
+        for c, a, n, cnd, f in I.calls:
+            if c.endswith("RsaKeyPair::from_pkcs8") or c.endswith("RsaKeyPair::from_der"):
+                seen[c.split("::")[-1]].append(cnd)
+        def _pk8(cnd, want):
+            ats = [x for x in F.atoms(cnd) if x[0] == "variant" and x[2] == "Pkcs8"]
+            if not ats:
+                return False
+            try:
+                return all(asg[ats[0]] == want for asg in F.assignments(list(F.atoms(cnd))) if F.evalf(cnd, asg))
+            except ValueError:
+                return False
+        ok = bool(seen["from_pkcs8"]) and bool(seen["from_der"]) and all(_pk8(c_, True) for c_ in seen["from_pkcs8"]) and all(_pk8(c_, False) for c_ in seen["from_der"])
+        rep.ob("C11.pairs", "%s|%s|rsa-parser-by-container" % (cfg, fn), ok, "under aws-lc-rs an RSA key is parsed with from_pkcs8 exactly when the container is PKCS#8 and with from_der (PKCS#1) otherwise",
+               found={k_: len(v_) for k_, v_ in seen.items()})
+
+
 def check_pairs(cfg, crate, rep, tables):
+    if cfg in ("K2", "K5") or any("aws_lc_rs::signature::RsaKeyPair::from_der" in (t.get("callee") or "") for b_ in crate.bodies.values() if "mir" in b_ for _, t in common.mir_calls(b_, lambda c: True)):
+        rsa_container_rule(cfg, crate, rep)
     for fn in (EXPLICIT, EXPLICIT_DER):
         if fn not in crate.bodies:
             continue
